@@ -36,7 +36,7 @@ def bounds(tier):
 
 def configs(tier, seed):
     out = []
-    for si in (range(len(SEEDS)) if tier != "quick" else [0, 3]):
+    for si in (range(len(SEEDS)) if tier != "quick" else [4, 3]):  # quick: g(cart)+f(sph); s+d+p
         # shard the group over workers: 6 shards of 8 elements
         for shard in range(6):
             out.append({"seed": si, "shard": shard, "tier": tier})
